@@ -1857,3 +1857,63 @@ func controlConds(phi *ssa.Phi) []ssa.Value {
 	}
 	return out
 }
+
+// ---------------------------------------------------------------------------
+// R-ERR-REPORTS (C12; added after seed C12g): "Err reports the terminating error if any" - after every sequence
+// of Next/Scan/Close calls. Solutions.Err hands out what the search recorded: every value it returns is a load of
+// the receiver's error field, or nil where that field is known to be nil. A return of nil guarded by anything else
+// (closed, exhausted) hides the error of a query that has ended in one.
+func ruleErrReports(c *Ctx, r *Report) {
+	const rule = "R-ERR-REPORTS"
+	desc := "Solutions.Err returns the recorded error on every path"
+	fn := c.rootMethod("Solutions", "Err")
+	if fn == nil || len(fn.Params) == 0 {
+		r.undecided(rule, "anchor:Solutions.Err", "-", desc, "not found")
+		return
+	}
+	recv := ssa.Value(fn.Params[0])
+	isErrLoad := func(v ssa.Value) bool {
+		u, ok := v.(*ssa.UnOp)
+		if !ok || u.Op != token.MUL {
+			return false
+		}
+		fa, ok := u.X.(*ssa.FieldAddr)
+		return ok && fa.X == recv && isErrorType(fa.Type().(*types.Pointer).Elem())
+	}
+	n := 0
+	eachInstr(fn, func(in ssa.Instruction) {
+		ret, ok := in.(*ssa.Return)
+		if !ok || len(ret.Results) != 1 {
+			return
+		}
+		n++
+		key := fmt.Sprintf("%s/return#%d", fname(fn), n)
+		bad := ""
+		for _, l := range c.originSet(ret.Results[0]) {
+			switch {
+			case isErrLoad(l):
+			case isNilConst(l):
+				known := false
+				for f := range c.factsAt(in.Block()) {
+					if x, op, ok := nilCmp(f.cond); ok && isErrLoad(x) && (op == token.EQL) == f.pol {
+						known = true
+					}
+				}
+				if !known {
+					bad = "nil is returned where the recorded error is not known to be nil"
+				}
+			default:
+				bad = "the value returned (" + valName(l) + ") is not the recorded error"
+			}
+		}
+		if bad == "" {
+			r.ok(rule, key, c.at(in), desc, "returns the receiver's error field", true)
+		} else {
+			r.bad(rule, key, c.at(in), desc, bad+": a query that ended in an error reports none (after Close, or after exhaustion)")
+		}
+	})
+	if n == 0 {
+		r.undecided(rule, fname(fn)+"/returns", c.Pos(fn.Pos()), desc, "no return found")
+	}
+	r.analysed(rule, fname(fn))
+}
